@@ -148,6 +148,9 @@ def fields(tier):
         ([[SORT_RELS[2]], [SORT_RELS[7]], [SORT_RELS[2]]], False, ()),       # the same entry twice
         ([[SORT_RELS[0]], [], [SORT_RELS[1]], []], True, ("shlibs:Depends", "misc:Depends")),
         ([[SORT_RELS[5], SORT_RELS[1]], [SORT_RELS[5]]], False, ()),         # one entry is a prefix of the other
+        ([], True, ("shlibs:Depends", "misc:Depends")),                       # substvars only
+        ([[]], False, ("misc:Depends",)),                                     # an empty entry, then a substvar
+        ([[rel("gcc-doc", profiles=[[(True, "nodoc")], [(False, "cross"), (True, "stage1")]])], [rel("aa", archs=[(True, "s390x"), (True, "armel")])]], False, ()),
     ]
     combos = c10.combo_fields(tier)
     out += combos if tier == "thorough" else combos[::9]
@@ -171,7 +174,7 @@ def run(tier):
     n = 0
     all_rels = {}
     for fi, (entries, trailing, svars) in enumerate(fields(tier)):
-        styles = STYLES if tier == "thorough" or fi < 17 and fi % 3 == 0 else [STYLES[fi % len(STYLES)], STYLES[(fi + 4) % len(STYLES)]]
+        styles = STYLES if tier == "thorough" or fi < 20 and fi % 3 == 0 else [STYLES[fi % len(STYLES)], STYLES[(fi + 4) % len(STYLES)]]
         for style in styles:
             toks = relspec.field_tokens(entries, style, trailing, svars)
             text = db.text_of_tokens(toks)
